@@ -16,15 +16,16 @@ PROPS = {
                 trusted=DYN_TRUST),
     "C02": dict(prop_file="props/C02.v", generators=ENG, module="harness.p_dyn",
                 slice="Blocks.v trees vs NumPy step and CasADi functions (the values the balance is about)",
-                trusted=DYN_TRUST + ["C02 is stated on Spec.v values; C01 (proved) identifies them with the model's outputs"]),
+                trusted=DYN_TRUST + ["C02's balances are stated on Spec.v values; model_conserves composes them with C01 for the regenerated engines"]),
     "C03": dict(prop_file="props/C03.v", generators=ENG, module="harness.p_dyn",
                 slice="Blocks.v trees (np, cs) vs NumPy/SX/MX; ToFunction.v arguments+result trees vs the compiled function",
                 trusted=DYN_TRUST + ["Paramcoq only produces the term network_step_R; it is type-checked by the kernel",
                                      "ToFunction.v (hand-written model of to_function; tied by the compile correspondence)",
                                      "one symbolic type in the model: SX vs MX agreement is dynamic only"]),
-    "C04": dict(prop_file="props/C04.v", generators=ENG, module="harness.p_dyn",
+    "C04": dict(prop_file="props/C04.v", generators=ENG + ["T-tables"], module="harness.p_dyn",
                 slice="ToFunction.v arguments (names, symbols) + result trees vs F.name_in/out, sizes, numeric values",
-                trusted=DYN_TRUST + ["ToFunction.v (hand-written model of to_function; tied by the compile correspondence)"]),
+                trusted=DYN_TRUST + ["ToFunction.v (hand-written model of to_function; tied by the compile correspondence)",
+                                     "translator facts.py (the tests on `compact` of the compile helpers -> gen/Tables.v)"]),
     "C05": dict(prop_file="props/C05.v", generators=ENG, module="harness.p_dyn",
                 slice="ToFunction.v (more_out) result trees vs the compiled function",
                 trusted=["no axioms (Print Assumptions: closed under the global context)",
@@ -47,10 +48,11 @@ PROPS = {
     "C07": dict(prop_file="props/C07.v", generators=ENG, module="harness.p_dyn",
                 slice="Blocks.v trees vs NumPy/CasADi; every graph the implementation's is_valid accepts is stepped and compiled",
                 trusted=DYN_TRUST + ["PARTIAL: Python exceptions outside the modelled failure points, NumPy/CasADi shape rules and IEEE "
-                                     "overflow are covered by the dynamic runs only", "ToFunction.v (hand-written; tied by the compile correspondence)"]),
+                                     "overflow / rounding are covered by the dynamic runs only (finiteness of a whole step is proved "
+                                     "over the exact partial reals NumPR.v)", "ToFunction.v (hand-written; tied by the compile correspondence)"]),
     "C10": dict(prop_file="props/C10.v", generators=ENG, module="harness.p_dyn",
                 slice="Blocks.v trees vs CasADi functions; Jacobian sparsity vs variable sets of the Spec trees",
-                trusted=DYN_TRUST + ["C10 is stated on Spec.v values; C01 identifies them with the model's outputs"]),
+                trusted=DYN_TRUST + ["locality is stated on Spec.v values; model_locality composes it with C01 for the regenerated engines"]),
     "C11": dict(prop_file="props/C11.v", generators=ENG, module="harness.p_dyn",
                 slice="Blocks.v trees under a clamping option set vs NumPy step and CasADi functions",
                 trusted=["FunctionalExtensionality.functional_extensionality_dep (the only axiom; theorems hold for every numeric structure)",
@@ -59,10 +61,11 @@ PROPS = {
                 slice="Lifecycle.v vs the implementation on lifecycle histories; Blocks.v trees vs NumPy/CasADi on re-used objects",
                 trusted=["no axioms", "Lifecycle.v as model of the variable slots (tied by lifecycle histories)",
                          "translator effects.py: which expressions allocate a new value is a classification rule (trusted, PARTIAL)"]),
-    "C19": dict(prop_file="props/C19.v", generators=[], module="harness.p_life",
+    "C19": dict(prop_file="props/C19.v", generators=["T-tables"], module="harness.p_life",
                 slice="Lifecycle.v vs init_vars / step / construction / to_function histories on SX and MX",
                 trusted=["no axioms", "Lifecycle.v as model of base.py slots, Network.step, to_function's readiness scan and "
-                         "casadi.Function's free-symbol rule (tied by lifecycle histories)"]),
+                         "casadi.Function's free-symbol rule (tied by lifecycle histories)",
+                         "translator facts.py (init_vars resets / step overwrites, read off blocks/*.py -> gen/Tables.v)"]),
     "C13": dict(prop_file="props/C13.v", generators=["T-tables"], module="harness.p_sel",
                 slice="EngineSel.v vs use/get_current_engine on selection histories; recording engines for every (selected, explicit) pair",
                 trusted=["no axioms", "EngineSel.v as model of engines/core.py::use and the module-level selection",
